@@ -368,6 +368,15 @@ def _hyp(check: Check):
 def _ignore_grads(check: Check):
   repo = check.repo
   b = repo.func('fedjax.core.optimizers', 'ignore_grads_haiku')
+  # the list of names is consulted on every call (twice per apply, once per init): it is materialised once in the builder, so that
+  # a one-shot iterable (zip, generator) is not exhausted by the first membership test
+  bff = FuncFlow.of(repo, b)
+  np_ = b.positional_params[1] if len(b.positional_params) > 1 else None
+  if np_ is not None:
+    mat = any(d.name == np_ and isinstance(d.value, ast.Call) and (bff.ext(d.value.func) or '') in (
+        'builtins.tuple', 'builtins.list', 'builtins.frozenset', 'builtins.set', 'builtins.sorted') for ds in bff.rd.defs_at.values() for d in ds)
+    check.ob('R-IGNORE.names', b, f'{np_} = tuple({np_})', mat,
+             'the names are materialised before the closures use them (otherwise nothing stays frozen after the first look-up)', exact=True)
   ap = b.nested('apply')
   ff = FuncFlow.of(repo, ap)
   check.analysed(ap)
